@@ -233,7 +233,7 @@ theorem probeF_terminates {N : Nat} {h tm ky : Nat → Nat} {ts len : Nat} (I : 
 def wr (f : Nat → Nat) (p x : Nat) : Nat → Nat := fun j => if j = p then x else f j
 
 theorem InvF_write {N : Nat} {h tm ky : Nat → Nat} {ts len : Nat} (I : InvF N h tm ky ts len)
-    (hh : ∀ k, h k < N) (key p d : Nat) (hpN : p < N) (hd : d < N) (hpd : p = (h key + d) % N)
+    (key p d : Nat) (hpN : p < N) (hd : d < N) (hpd : p = (h key + d) % N)
     (hall : ∀ e, e < d → tm ((h key + e) % N) = ts ∧ ky ((h key + e) % N) ≠ key)
     (hcase : (tm p = ts ∧ ky p = key) ∨ (tm p ≠ ts ∧ ∀ i, i < N → tm i = ts → ky i ≠ key))
     (len' : Nat) (hlen : len' = if tm p = ts then len else len + 1) (hroom : len' < N) :
